@@ -576,7 +576,7 @@ def paux_rules(chk, m, rid):
     R = chk.rule(rid, 'Compile.parse (interpreted with a scripted directory listing): every .paux file of the working directory and '
                  'of the configured paux-dirs is restored with the configured renderer name, except files named <jobname>.paux - the '
                  'name is derived from the job name (not from the path given on the command line) and compared with the base name', 1)
-    fn = m.module('plasTeX.Compile').functions.get('parse')
+    fn = m.func_or_none('plasTeX.Compile', 'parse')
     need(fn is not None, 'plasTeX.Compile.parse not found')
     chk.analysed(fn)
     listing = {'/w/*.paux': ['/w/doc.paux', '/w/other.paux', '/w/userdoc.paux'], '/x/*.paux': ['/x/lib.paux', '/x/doc.paux']}
